@@ -91,6 +91,123 @@ theorem dom_entry (g : Graph) (hn : 0 < g.length) {a : Nat} :
   · intro h; simpa using h [0] .root
   · rintro rfl l hl; exact hl.root_mem
 
+/-! ## The order in which the blocks are listed, and the table the loop starts from -/
+
+/-- **Order independence.** "For every region control-flow graph": the answer is a property of the
+graph, not of the order in which the region lists its blocks.  If `g'` is `g` with the blocks after
+the entry listed in any other order (`π` renumbers, `π 0 = 0`), then `dominates (π a) (π b)` on `g'`
+is `dominates a b` on `g` — also when a loop is listed before the block that guards it. -/
+theorem dom_relabel {g g' : Graph} {π σ : Nat → Nat} (h : Relabel g g' π σ) (hwf : WF g)
+    (h0 : π 0 = 0) {a b : Nat} (ha : a < g.length) (hb : b < g.length) :
+    dominates (dominance g').1 (π a) (π b) = dominates (dominance g).1 a b := by
+  have hb' : π b < g'.length := by rw [h.len]; exact h.lt b hb
+  have ha' : π a < g'.length := by rw [h.len]; exact h.lt a ha
+  have hs := h.symm hwf
+  have hn : 0 < g.length := by omega
+  have h0' : σ 0 = 0 := by have := h.left 0 hn; rw [h0] at this; exact this
+  rw [Bool.eq_iff_iff, dom_iff_paths_all g' hb', dom_iff_paths_all g hb]
+  constructor
+  · exact fun hd => ⟨ha, h.pathdom h0 ha hb hd.2⟩
+  · intro hd
+    refine ⟨ha', hs.pathdom h0' ha' hb' ?_⟩
+    rw [h.left a ha, h.left b hb]
+    exact hd.2
+
+theorem strict_relabel {g g' : Graph} {π σ : Nat → Nat} (h : Relabel g g' π σ) (hwf : WF g)
+    (h0 : π 0 = 0) {a b : Nat} (ha : a < g.length) (hb : b < g.length) :
+    strictlyDominates (dominance g').1 (π a) (π b) = strictlyDominates (dominance g).1 a b := by
+  unfold strictlyDominates
+  by_cases hab : a = b
+  · simp [hab]
+  · have : π a ≠ π b := fun e => hab (by rw [← h.left a ha, e, h.left b hb])
+    rw [if_neg hab, if_neg this, dom_relabel h hwf h0 ha hb]
+
+/-- **Any sound start table gives the same answer.**  The loop may start from any table that
+satisfies the invariant (`Inv`: entry row `{entry}`, every row contains all path-based dominators of
+its block, refining a row only removes members): it then stops within `n·n + 1` passes with exactly
+the path-based relation.  `init` (every other row = all blocks) is one such table; a start table that
+*omits* a dominator is not (see `prefix_start_counterexample`). -/
+theorem dominance_from_sound_start (g : Graph) (d : Dom) (hi : Inv g d) {a b : Nat}
+    (hb : b < g.length) :
+    (iterate g (g.length * g.length + 1) d).2 = true ∧
+    (dominates (iterate g (g.length * g.length + 1) d).1 a b = true ↔
+      a < g.length ∧ ∀ l, Path g 0 b l → a ∈ l) := by
+  obtain ⟨hc, hi', hf⟩ := iterate_spec (g.length * g.length + 1) d hi (by have := size_le hi; omega)
+  refine ⟨hc, ?_⟩
+  unfold dominates
+  rw [List.contains_iff_mem]
+  constructor
+  · intro hm
+    refine ⟨?_, fun l hl => fix_complete hi'.entry hf hl hb hm⟩
+    obtain ⟨p, hp⟩ := hi'.canon b hb
+    rw [hp] at hm
+    exact List.mem_range.mp (List.mem_filter.mp hm).1
+  · intro ⟨ha, hp⟩
+    exact hi'.sound b hb a ha hp
+
+/-- the start table "row of the i-th block = the blocks listed up to and including it" (it assumes
+that a dominator is always listed before the blocks it dominates) -/
+def prefixStart (n : Nat) : Dom := (List.range n).map fun b => List.range (b + 1)
+
+/-- Why the rows must start from ALL blocks.  Region order `entry, A, B, C, exit` with
+`entry → C → A ⇄ B → exit`: the loop `{A, B}` is listed before the block `C` that guards it.  Started
+from `prefixStart` the refinement loop stops, but at a table in which `C` dominates neither `A`, `B`
+nor `exit`; started from `init` it reports all three (as `dom_iff_paths` demands: every path from the
+entry to `A` passes through `C`). -/
+theorem prefix_start_counterexample :
+    let g : Graph := [[3], [2], [1, 4], [1], []]
+    (iterate g 26 (prefixStart 5)).2 = true
+    ∧ dominates (iterate g 26 (prefixStart 5)).1 3 1 = false
+    ∧ dominates (iterate g 26 (prefixStart 5)).1 3 2 = false
+    ∧ dominates (iterate g 26 (prefixStart 5)).1 3 4 = false
+    ∧ dominates (dominance g).1 3 1 = true ∧ dominates (dominance g).1 3 2 = true
+    ∧ dominates (dominance g).1 3 4 = true
+    ∧ (∀ l, Path g 0 1 l → 3 ∈ l) := by
+  refine ⟨by decide, by decide, by decide, by decide, by decide, by decide, by decide, ?_⟩
+  exact ((dom_iff_paths_all [[3], [2], [1, 4], [1], []] (by decide)).mp (by decide)).2
+
+/-- Started from `prefixStart` the loop need not even stop: on `1 → 4 → 2 → 1` (a cycle listed out of
+order, unreachable from the entry `0`) the rows chase each other — after two passes the table
+alternates between two values for ever — so the loop never exits, whatever the fuel; from `init` it
+always stops (`dominance_converges`). -/
+theorem prefix_start_diverges (fuel : Nat) :
+    (iterate [[], [4], [1], [], [2]] fuel (prefixStart 5)).2 = false := by
+  let g : Graph := [[], [4], [1], [], [2]]
+  let d2 : Dom := [[0], [0, 1, 2, 3, 4], [0, 1, 2, 4], [0, 1, 2, 3, 4], [0, 1, 2, 3, 4]]
+  let d3 : Dom := [[0], [0, 1, 2, 4], [0, 1, 2, 3, 4], [0, 1, 2, 3, 4], [0, 1, 2, 4]]
+  have e2 : sweep g d2 = (d3, true) := by decide
+  have e3 : sweep g d3 = (d2, true) := by decide
+  have osc : ∀ k, (iterate g k d2).2 = false ∧ (iterate g k d3).2 = false := by
+    intro k
+    induction k with
+    | zero => exact ⟨rfl, rfl⟩
+    | succ k ih =>
+      constructor
+      · unfold iterate; rw [e2]; simp only [if_true]; exact ih.2
+      · unfold iterate; rw [e3]; simp only [if_true]; exact ih.1
+  have s0 : sweep g (prefixStart 5) =
+      ([[0], [0, 1, 2], [0, 1, 2, 3, 4], [0, 1, 2, 3, 4], [0, 1, 2, 4]], true) := by decide
+  have s1 : sweep g [[0], [0, 1, 2], [0, 1, 2, 3, 4], [0, 1, 2, 3, 4], [0, 1, 2, 4]] = (d2, true) := by
+    decide
+  match fuel with
+  | 0 => rfl
+  | 1 => unfold iterate; rw [s0]; simp only [if_true]; rfl
+  | k + 2 =>
+    unfold iterate; rw [s0]; simp only [if_true]
+    unfold iterate; rw [s1]; simp only [if_true]
+    exact (osc k).1
+
+/-- non-vacuity of `dom_relabel`: the region of `prefix_start_counterexample` is the natural listing
+`entry, C, A, B, exit` (`[[1], [2], [3], [2, 4], []]`) relisted by `π = (0 1 2 3 4 ↦ 0 3 1 2 4)`. -/
+example : Relabel [[1], [2], [3], [2, 4], []] [[3], [2], [1, 4], [1], []]
+    (fun u => [0, 3, 1, 2, 4].getD u 0) (fun u => [0, 2, 3, 1, 4].getD u 0) where
+  len := by decide
+  lt := by decide
+  lt' := by decide
+  left := by decide
+  right := by decide
+  succ := by decide
+
 /-! ## Non-vacuity: the two shapes on which the pinned code failed -/
 
 /-- `^0 → ^1`, `^2 → ^1` with `^2` unreachable (the failing input of the pinned code): the
